@@ -6,6 +6,8 @@ import (
 	"fmt"
 	"io"
 	"os"
+	"strconv"
+	"strings"
 )
 
 type LValueType int
@@ -168,6 +170,59 @@ func luaQuote(s string) string {
 	return string(buf)
 }
 
+// formatInteger writes an integer conversion as C's printf does. Go's fmt differs from C for
+// the unsigned conversions: it honours '+' and ' ' (C: signed conversions only), writes "0x" in
+// front of a zero, does not count the "0x" when the flag '0' fills the field, and drops the single
+// "0" of %#.0o.
+func formatInteger(f fmt.State, neg bool, u uint64, base int, upper, signed bool) {
+	digits := strconv.FormatUint(u, base)
+	if upper {
+		digits = strings.ToUpper(digits)
+	}
+	prec, hasPrec := f.Precision()
+	if hasPrec {
+		if prec == 0 && u == 0 {
+			digits = ""
+		}
+		if len(digits) < prec {
+			digits = strings.Repeat("0", prec-len(digits)) + digits
+		}
+	}
+	prefix := ""
+	if signed {
+		switch {
+		case neg:
+			prefix = "-"
+		case f.Flag('+'):
+			prefix = "+"
+		case f.Flag(' '):
+			prefix = " "
+		}
+	}
+	if f.Flag('#') {
+		switch {
+		case base == 8 && !strings.HasPrefix(digits, "0"):
+			digits = "0" + digits
+		case base == 16 && u != 0 && upper:
+			prefix = "0X"
+		case base == 16 && u != 0:
+			prefix = "0x"
+		}
+	}
+	w, _ := f.Width()
+	fill := w - len(prefix) - len(digits)
+	switch {
+	case fill <= 0:
+		io.WriteString(f, prefix+digits)
+	case f.Flag('-'):
+		io.WriteString(f, prefix+digits+strings.Repeat(" ", fill))
+	case f.Flag('0') && !hasPrec:
+		io.WriteString(f, prefix+strings.Repeat("0", fill)+digits)
+	default:
+		io.WriteString(f, strings.Repeat(" ", fill)+prefix+digits)
+	}
+}
+
 func (nm LNumber) String() string {
 	if isInteger(nm) {
 		return fmt.Sprint(int64(nm))
@@ -185,9 +240,11 @@ func (nm LNumber) Format(f fmt.State, c rune) {
 	case 'c':
 		// C's %c writes the single byte (unsigned char)n, not the UTF-8 encoding of a rune
 		formatBytes(f, []byte{byte(int64(nm))})
-	case 'o', 'x', 'X':
+	case 'o':
 		// unsigned conversions in C: a negative value prints as its two's complement
-		defaultFormat(uint64(int64(nm)), f, c)
+		formatInteger(f, false, uint64(int64(nm)), 8, false, false)
+	case 'x', 'X':
+		formatInteger(f, false, uint64(int64(nm)), 16, c == 'X', false)
 	case 'b', 'd', 'U':
 		defaultFormat(int64(nm), f, c)
 	case 'e', 'E', 'f', 'F', 'g', 'G':
